@@ -20,4 +20,9 @@ CLAIMS = {
         "note": "Not decided: step-for-step equality of the resumed trajectory (behavioural), JSON number round trip (ASE encoder, trusted; its use of obj.todict() is validated against the installed ASE source on every run). ForceBias/AdaptiveForceBias restart is a listed known finding.",
         "technique": "class-alias/override resolution + abstract interpretation of to_dict/from_dict + slot coverage tables",
     },
+    "C15": {
+        "text": "Decided on the CFGs of the run loop: the observer guard (locals inlined) is equivalent to the stated schedule on an exhaustively enumerated bounded integer domain; all paths of irun with the loop taken 0/1/2 times have exactly [yield step, increment, observers] per iteration with the bound fixed at entry; the start-up block is shown one-shot by re-evaluating its guard at every exit of every path that ran it (catches zero-length runs); every run/srun/run entry point of every driver class resolved through the MRO exhausts the step generators.",
+        "note": "Not decided: byte identity of output files across split runs (follows from O1–O3 together with C06 and C16). Guard equivalence is exhaustive only within interval∈[-7,7], step∈[0,20]; the predicate is piecewise in sign(interval) and step mod |interval|, which this domain covers for those intervals.",
+        "technique": "statement CFG path enumeration + dominance + bounded exhaustive predicate equivalence (checker-owned evaluator)",
+    },
 }
